@@ -54,6 +54,9 @@ def run(repo: Repo, rep: Report, tier: str, only_completion: bool = False, names
         rep.fail, rep.ok, rep.check = _orig_fail, _orig_ok, _orig_check
     # ---- 0 means unlimited, None means unknown ------------------------------------------------
     from ..lints import zero_legal_truthiness
+    from ..lints import decoder_loops_complete
+    rep.rule("reader-complete", "P_DATA_TF's item loops hand on every PDV item they frame (none skipped, whatever its length)")
+    rep.floor("codec item loops", decoder_loops_complete(repo, rep, "reader-complete", ("P_DATA_TF._generate_items", "P_DATA_TF._wrap_generate_items")), 2)
     rep.rule("none-not-falsy", "the maximum length is never tested by truthiness (0 = unlimited is a legal value)")
     zero_legal_truthiness(repo, rep, "none-not-falsy", {"maximum_length", "maximum_length_received"}, modules=("dimse", "dimse_messages", "association", "acse"))
 
